@@ -14,6 +14,10 @@ structure HeadersIn where
   sid : Nat
   eos : Bool
   status : Option Bytes
+  method : Option Bytes := none
+  scheme : Option Bytes := none
+  authority : Option Bytes := none
+  path : Option Bytes := none
   hasProtocol : Bool := false
   fields : Fields := []
   isOverSize : Bool := false
@@ -32,11 +36,64 @@ def parseU64 (src : Bytes) : Option Nat :=
     | none => none
     | some r => if d < 48 || d > 57 then none else some (r * 10 + (d - 48))) (some 0)
 
+/-- result of `server::Peer::convert_poll_message` -/
+inductive ConvReq where
+  | ok (method uri : Bytes)
+  | malformed                  -- `Err(library_reset(stream_id, PROTOCOL_ERROR))`
+  | unsupported                -- outside the subset of URIs the model knows how `http` parses
+  deriving Repr, DecidableEq
+
+def isAlnum (b : Nat) : Bool := Http.isDigit b || Http.isLower b || Http.isUpper b
+
+/-- authorities the model accepts without knowing `http::uri::Authority`'s full grammar:
+    a registered name of letters, digits, `.`, `-`, optionally `:` and digits -/
+def simpleAuthority (a : Bytes) : Bool :=
+  let host := a.takeWhile (· != 58)
+  let rest := a.dropWhile (· != 58)
+  !host.isEmpty && host.all (fun b => isAlnum b || b == 46 || b == 45) &&
+  (rest.isEmpty || (rest.length > 1 && rest.length ≤ 5 && (rest.drop 1).all Http.isDigit))
+
+/-- paths the model accepts: `*`, or `/` followed by unreserved characters and `/` (no query) -/
+def simplePath (p : Bytes) : Bool :=
+  p == [42] || (p.head? == some 47 && p.all (fun b => isAlnum b || b == 47 || b == 46 || b == 45 || b == 95 || b == 126))
+
+/-- `server::Peer::convert_poll_message(pseudo, fields, stream_id)` on the subset of requests whose
+    URI components are "simple" (everything the scripted peers send); the checks of h2 itself are
+    complete, the parsers of the `http` crate are only known on that subset -/
+def convertPollMessageServer (h : HeadersIn) : ConvReq :=
+  match h.method with
+  | none => .malformed
+  | some method =>
+    let isConnect := method == Http.str "CONNECT"
+    if h.hasProtocol && !isConnect then .malformed
+    else if h.status.isSome then .malformed
+    else if (match h.authority with | some a => !simpleAuthority a | none => false) then .unsupported
+    else if (h.scheme.isSome && isConnect && !h.hasProtocol) then .malformed
+    else if (match h.scheme with | some sc => sc != Http.str "http" && sc != Http.str "https" | none => false) then .unsupported
+    else if h.scheme.isNone && (!isConnect || h.hasProtocol) then .malformed
+    else if (match h.path with | some _ => isConnect && !h.hasProtocol | none => false) then .malformed
+    else if h.path == some [] then .malformed
+    else if (match h.path with | some p => !simplePath p | none => false) then .unsupported
+    else if h.path.isNone && isConnect && h.hasProtocol then .malformed
+    else
+      -- `uri::Parts`: the scheme is dropped without an authority; `Uri::from_parts`
+      let scheme := if h.authority.isSome then h.scheme else none
+      if scheme.isSome && h.path.isNone then .malformed                        -- PathAndQueryMissing
+      else if scheme.isNone && h.authority.isSome && h.path.isSome then .malformed   -- SchemeMissing
+      else
+        -- `impl Display for Uri`
+        let uri := (match scheme with | some sc => sc ++ Http.str "://" | none => []) ++ (h.authority.getD []) ++
+                   (match h.path with
+                    | some p => p
+                    | none => if scheme.isSome then Http.str "/" else [])
+        .ok method uri
+
 /-- `RecvHeaderBlockError` + `Ok` -/
 inductive RecvHeadersRes where
   | ok
   | oversize (answer431 : Bool)
   | state (e : PErr)
+  | unsupported
   deriving Repr
 
 namespace Streams
@@ -214,10 +271,18 @@ def recvRecvHeaders (s : Streams) (id : Nat) (h : HeadersIn) : Streams × RecvHe
       else
         -- `convert_poll_message`: `Response::builder()` keeps its default status 200 without `:status`
         let status := h.status.getD (Http.str "200")
-        if !h.isInformational then
+        if s.counts.isServer then
+          -- (`pseudo.is_informational()` needs a `:status`, which a request does not get this far with)
+          match convertPollMessageServer h with
+          | .malformed => (s, .state (PErr.libraryReset (s.stream id).id PROTOCOL_ERROR))
+          | .unsupported => (s, .unsupported)
+          | .ok method uri =>
+            let s := s.modStream id fun st => { st with pendingRecv := st.pendingRecv ++ [.request method uri h.fields] }
+            let s := s.modStreamW id Stream.notifyRecv
+            ((s.qPush .pendingAccept id).1, .ok)
+        else if !h.isInformational then
           let s := s.modStream id fun st => { st with pendingRecv := st.pendingRecv ++ [.headers status h.fields] }
-          let s := s.modStreamW id Stream.notifyRecv
-          (if s.counts.isServer then (s.qPush .pendingAccept id).1 else s, .ok)
+          (s.modStreamW id Stream.notifyRecv, .ok)
         else
           let s := s.modStream id fun st => { st with pendingRecv := st.pendingRecv ++ [.informational status h.fields] }
           (s.modStreamW id Stream.notifyRecv, .ok)
@@ -276,6 +341,16 @@ def recvRecvData (s : Streams) (id : Nat) (payload : Bytes) (eos : Bool) (padLen
                 else
                   let s := s.modStream id fun st => { st with pendingRecv := st.pendingRecv ++ [.data payload (!eos)] }
                   (s.modStreamW id Stream.notifyRecv, .ok ())
+
+/-- `Recv::next_incoming(store)` -/
+def recvNextIncoming (s : Streams) : Streams × Option Nat := s.qPop .pendingAccept
+
+/-- `Recv::take_request(stream)`: `none` = the `unreachable!` -/
+def recvTakeRequest (s : Streams) (id : Nat) : Streams × Option (Bytes × Bytes × Fields) :=
+  match (s.stream id).pendingRecv with
+  | .request m u f :: rest => (s.modStream id fun st => { st with pendingRecv := rest }, some (m, u, f))
+  | _ :: rest => ((s.modStream id fun st => { st with pendingRecv := rest }).panic "server stream queue must start with Headers", none)
+  | [] => (s.panic "server stream queue must start with Headers", none)
 
 /-- `Recv::ensure_not_idle(id)` -/
 def recvEnsureNotIdle (s : Streams) (id : Nat) : Except Reason Unit :=
